@@ -205,6 +205,9 @@ func (s obsSummary) brief() map[string]interface{} {
 }
 
 func checkReaderCase(res *Result, rc *readerCase, idx int) {
+	if res.saturated("C09", "C11") {
+		return
+	}
 	K := realBuf / rc.B
 	plan, final, withData, noprog := rc.realPlan(K)
 	// mode junk: compare with the specification's returned lines
